@@ -118,7 +118,8 @@ def run(ctx):
         raise core.Machinery("negative control (corrupted trace) was not rejected")
     ctx.notes["trace"] = {"histories": ntr, "events": len(events), "negative_control_rejected": True, "atoms": "-%d..%d" % (dom, dom)}
     ctx.coverage["rule"] = ("R: every maximal valid add/retract history of length MaxLen over atoms {-1,1,2} (prefixes checked step by step), "
-                            "each run through every aggregate kind x {Int, Float a/4, Duration} overload; a run is non-trivial (it has at least one "
+                            "each run through every aggregate kind x {Int, Float a/4, Duration} overload and with the atoms scaled by 2^53+1 (Int, Duration: sums and averages beyond "
+                            "the integers a float64 holds exactly; expectation trunc(K*n/d) from TLC's exact rational n/d); a run is non-trivial (it has at least one "
                             "retraction or duplicate). T: seeded random valid histories over atoms -20..20 validated by TLC. "
                             "distinct_nontrivial counts (history, kind, overload) runs.")
     ctx.coverage["exhaustive"] = True
